@@ -480,6 +480,19 @@ func main() {
 			run.Sample("converse", fmt.Sprintf("%+v", ref))
 		}
 	}
+	// code points outside ASCII that fold, normalise or look like characters of the grammar (the Kelvin
+	// sign and the long s fold onto k and s under Unicode case folding; full-width forms; other digits and
+	// dots): in every position of otherwise valid tags, names, hosts and digests, and in long runs
+	for _, r := range []rune{0x212A, 0x017F, 0x0130, 0x0131, 0x00E9, 0x1E9E, 0xFF41, 0xFF21, 0xFF10, 0x0661, 0x2024, 0xFF0E, 0x2215, 0xFF0F, 0xFF1A, 0xFF20, 0x00DF, 0x03BA, 0x0430, 0x2010, 0xFF3F} {
+		rs := string(r)
+		for _, t := range []string{rs, "v1" + rs, rs + "v1", "a" + rs + "b", "v1-" + rs + "table", rs + "8s", strings.Repeat(rs, 2), strings.Repeat(rs, 128), strings.Repeat(rs, 127) + "a", "a" + strings.Repeat(rs, 127),
+			"lib/" + rs, "lib" + rs + "/x", rs + "/x", "reg" + rs + ".example", "sha256:" + strings.Repeat("a", 63) + rs, "sha" + rs + "56:" + strings.Repeat("a", 64)} {
+			all(t, true)
+			all("reg.example/repo:"+t, false)
+			all("reg.example/"+t+":tag", false)
+			run.Count("folding_code_point_strings", 1)
+		}
+	}
 	// repository names made of the routing layer's own words, adjacent and in order
 	for _, s := range []string{"mirror/blobs/uploads", "blobs/uploads", "x/blobs/uploads/y", "mirror/blobs/uploads-v2/cache", "a/blobs/uploads/b/blobs/uploads",
 		"manifests/tags/list", "a/tags/list/b", "tags/list", "v2/_catalog", "v2", "x/manifests/y", "x/referrers/y", "blobs", "uploads", "a/blobs/b", "a/manifests",
@@ -494,5 +507,6 @@ func main() {
 	run.FloorCounter("router_strings", 1000)
 	run.FloorCounter("valid_tag", 100)
 	run.FloorCounter("valid_digest", 100)
+	run.FloorCounter("folding_code_point_strings", 300)
 	run.Finish()
 }
